@@ -10,7 +10,10 @@ DEMO=""
 FEAT=""
 if [ -f "$OUT/demo_test.rs" ]; then
   cp "$OUT/demo_test.rs" tests/zz_demo_$NAME.rs; DEMO="--test zz_demo_$NAME"
-  if grep -q "verif" "$OUT/demo_test.rs"; then FEAT="--features verif"; fi
+  FL=""
+  if grep -q "verif_\|features verif\|feature verif\|verif::" "$OUT/demo_test.rs"; then FL="verif"; fi
+  if grep -q "legacy-proving" "$OUT/demo_test.rs"; then FL="${FL:+$FL,}legacy-proving"; fi
+  if [ -n "$FL" ]; then FEAT="--features $FL"; fi
 fi
 LOG="$OUT/confirm.log"; : > "$LOG"
 if [ -n "$DEMO" ]; then
